@@ -186,6 +186,13 @@ def cases(tier, seed):
     ]
     for t in wide:
         add(t, RHS_BASIC, "w:")
+    # sums of >= 3 terms where one term hands its operand back unchanged (Identity): aliasing accumulations show from the third term on
+    for t in [["sum", ["identity", 2, F8], ["dense", 2, 2, F8], ["dense", 2, 2, F8]],
+              ["sum", ["identity", 3, F8], ["diag", 3, F8], ["tridiag", 3, F8], ["dense", 3, 3, F8]],
+              ["sum", ["dense", 2, 2, F8], ["identity", 2, F8], ["dense", 2, 2, F8]],
+              ["sum", ["identity", 2, C8], ["dense", 2, 2, C8], ["diag", 2, C8]],
+              ["product", ["sum", ["identity", 2, F8], ["dense", 2, 2, F8], ["diag", 2, F8]], ["identity", 2, F8]]]:
+        add(t, RHS_BASIC + [["col2", C16]], "is:")
     # depth 2: composites of depth-1 composites (seed-rotated sample in quick, all in thorough)
     pool2 = [["kron", ["dense", 2, 1, F8], ["dense", 1, 2, F8]], ["product", ["dense", 2, 3, F8], ["dense", 3, 2, F8]],
              ["sum", ["dense", 2, 2, F8], ["diag", 2, F8]], ["blockdiag", [["dense", 1, 1, F8]], [2]],
